@@ -51,6 +51,9 @@ func errNameFromMsg(msg string) string {
 	if strings.HasPrefix(msg, "invalid opcode") {
 		return "invalid"
 	}
+	if strings.HasPrefix(msg, "no such miner") || msg == "miner not existed" {
+		return "no-such-miner"
+	}
 	return "other:" + strings.ReplaceAll(msg, " ", "_")
 }
 
